@@ -2,7 +2,7 @@
 import numpy as np
 import pandas as pd
 
-from .. import common
+from .. import common, checklib
 
 LEVEL = "exploration"
 
@@ -25,7 +25,14 @@ def col(dm, name=None):
     return np.asarray(dm.common[name], dtype=float).reshape(len(X), -1)
 
 
+def PROOFS():
+    from ..contracts import transforms_c
+    T = "formulae.transforms."
+    return [("vf.contracts.transforms_c", [T + "binary", T + "Proportion.__init__", T + "Proportion.eval"])]
+
+
 def run(report, findings):
+    checklib.run_proofs(report, "C16", PROOFS())
     import logging
     import warnings
     logging.getLogger("formulae").setLevel(logging.CRITICAL)
